@@ -1,0 +1,43 @@
+package vm
+
+import (
+	"github.com/hyperledger/burrow/execution/errors"
+	"github.com/hyperledger/burrow/execution/exec"
+)
+
+// frameEventSink holds the LOG (and print) events of one call frame back until the frame is known to have
+// succeeded, so that the events a reverted or failed inner call emitted never reach the transaction's event log.
+// Call events are the execution trace (they carry the exception of a failed call) and are passed on at once.
+type frameEventSink struct {
+	parent exec.EventSink
+	events []func(exec.EventSink) error
+}
+
+func newFrameEventSink(parent exec.EventSink) *frameEventSink {
+	return &frameEventSink{parent: parent}
+}
+
+func (s *frameEventSink) Call(call *exec.CallEvent, exception *errors.Exception) error {
+	return s.parent.Call(call, exception)
+}
+
+func (s *frameEventSink) Log(log *exec.LogEvent) error {
+	s.events = append(s.events, func(to exec.EventSink) error { return to.Log(log) })
+	return nil
+}
+
+func (s *frameEventSink) Print(print *exec.PrintEvent) error {
+	s.events = append(s.events, func(to exec.EventSink) error { return to.Print(print) })
+	return nil
+}
+
+// flush hands the frame's events to the enclosing frame's sink, in order.
+func (s *frameEventSink) flush() error {
+	for _, ev := range s.events {
+		if err := ev(s.parent); err != nil {
+			return err
+		}
+	}
+	s.events = nil
+	return nil
+}
